@@ -1023,7 +1023,7 @@ func (c *c16Ctx) writeCoq(path string, pfs []*c16PF, maxCases int) (int, []int, 
 	for _, p := range pfs {
 		if used[p] {
 			p.dumpName = fmt.Sprintf("td%d", p.idx)
-			fmt.Fprintf(&sb, "(* %s: %s *)\nDefinition %s : tdump := %s.\n", p.kind, strings.ReplaceAll(c16LitsReadable(p.lits), "*)", "* )"), p.dumpName, c16CoqDump(p))
+			fmt.Fprintf(&sb, "(* %s: %s *)\nDefinition %s : tdump := %s.\n", p.kind, c16CommentSafe(c16LitsReadable(p.lits)), p.dumpName, c16CoqDump(p))
 		}
 	}
 	sb.WriteString("\nDefinition cases : list case := [\n")
@@ -1140,4 +1140,12 @@ func c16Main(args []string) int {
 	fmt.Printf("c16: %d prefilters, %d evaluations, %d distinct, %d coq cases, %d violation groups (%v) in %.1fs\n",
 		len(pfs), c.evals, len(c.distinct), ncases, len(c.viol), c.violN, time.Since(t0).Seconds())
 	return 0
+}
+
+// c16CommentSafe makes a string harmless inside a Coq comment: comment delimiters and the
+// double quote (Coq lexes strings inside comments; an unbalanced quote swallows the rest).
+func c16CommentSafe(t string) string {
+	t = strings.ReplaceAll(t, "*)", "* )")
+	t = strings.ReplaceAll(t, "(*", "( *")
+	return strings.ReplaceAll(t, "\"", "''")
 }
